@@ -435,14 +435,16 @@ def proof_step(prop: str, tier: str = "quick") -> dict:
     info["examples"] = exs
     info["ok"] = True
     info["missing_print_assumptions"] = [t for t in thms if t not in pa_names]
-    if tier == "thorough":
-        ck = coqchk_step(prop)
-        info["coqchk"] = ck
-        if not ck.get("ok"):
-            info["ok"] = False
-            info["error"] = "coqchk (independent checker) did not accept the property file's closure: " + json.dumps(ck)[:800]
     info["wall_s"] = round(time.time() - t0, 2)
     return info
+
+
+def merge_coqchk(proof: dict, ck: dict) -> None:
+    """thorough tier: result of the independent checker into the proof record (it runs beside the harness)."""
+    proof["coqchk"] = ck
+    if not ck.get("ok"):
+        proof["ok"] = False
+        proof["error"] = "coqchk (independent checker) did not accept the property file's closure: " + json.dumps(ck)[:800]
 
 
 # --------------------------------------------------------------------------
